@@ -828,7 +828,10 @@ fn check_tree_cmd(
     for rep in 0..repeats {
       let mut a = cmd.args.clone();
       a.push(format!("--json={style}"));
-      a.extend(sargs(&["--inspect", "summary", "-j", &j.to_string(), "."]));
+      // `--inspect entity` traces every file on stderr (one shared sink for all walker threads):
+      // tracing never decides whether a file is searched
+      let level = if rep % 2 == 1 { "entity" } else { "summary" };
+      a.extend(sargs(&["--inspect", level, "-j", &j.to_string(), "."]));
       let prefix: Vec<&str> = if perturb && rep % 3 == 1 {
         vec!["nice", "-n", "15"]
       } else if perturb && rep % 3 == 2 && Path::new("/usr/bin/taskset").exists() {
